@@ -22,6 +22,7 @@ RULE = ('(a) every statement list of length <= 4 (quick) / <= 5 (thorough; <= 6 
         'independent small-step VM: result or exact error message, marker sequence, statementCount, final globals; the model is deep-equal '
         'before and after; a second and third execution with fresh equal globals give identical observations. Non-trivial: the run takes '
         '>= 1 jump. Distinct by model + initial n.')
+RULE += " Also: label names '', '0', 'A b', '__bareScriptLoop0', non-ASCII; conditional jumps on a raw value from the truth table ({} is true, [] is false); spreadsheet aliases in jump conditions (undefined); every 3rd model is also run without caller-supplied globals (options without the member twice, then no options at all under a 10 s deadline) and must equal the run from empty globals."
 ASSUMPTIONS = ['models are schema-valid (validate_script is asserted for every generated model)',
                'expression evaluation inside the VM uses the reference evaluator (C03 decides that)']
 
